@@ -33,6 +33,10 @@ class Property:
            else a short string saying what fails."""
         return None
 
+    def spec_raw(self, case, raw_impl):
+        """optional second oracle on the unprojected implementation output"""
+        return None
+
     def known_class(self, case, impl, why):
         """-> class id of KNOWN_FINDINGS.txt this failure falls into, or None"""
         return None
@@ -66,6 +70,7 @@ class Property:
 def execute(P, cases, profile, exes):
     impl = core.run_sharded(exes["impl_" + profile], cases, tag=P.id + ".impl", shards=P.shards)
     model = core.run_sharded(exes["model"], cases, extra_args=P.model_args(profile), tag=P.id + ".model", shards=P.shards)
+    P._raw_impl = dict(zip(cases, impl))
     return [P.project(l) for l in impl], [P.project(l) for l in model]
 
 
@@ -164,7 +169,7 @@ def run_property(P, tier, seed, replay=None):
                 if a.startswith("HARNESS-PANIC") or a.startswith("RUNNER-DIED") or a.startswith("?unknown"):
                     why = "harness could not run the case: " + a[:200]
                 else:
-                    why = P.spec(c, a)
+                    why = P.spec(c, a) or P.spec_raw(c, P._raw_impl.get(c, a))
                 if why:
                     cls = P.known_class(c, a, why)
                     if cls and any(k["cls"] == cls for k in known_here):
@@ -195,11 +200,11 @@ def run_property(P, tier, seed, replay=None):
     if violations:
         c, why, a, b, prof = min(violations, key=lambda v: len(v[0]))
         try:
-            small = shrink(P, c, prof, exes, lambda cc, aa, bb: P.spec(cc, aa) is not None and
+            small = shrink(P, c, prof, exes, lambda cc, aa, bb: (P.spec(cc, aa) or P.spec_raw(cc, P._raw_impl.get(cc, aa))) is not None and
                            not (P.known_class(cc, aa, P.spec(cc, aa)) and
                                 any(k["cls"] == P.known_class(cc, aa, P.spec(cc, aa)) for k in known_here)))
             ia, ib = execute(P, [small], prof, exes)
-            c, a, b, why = small, ia[0], ib[0], P.spec(small, ia[0]) or why
+            c, a, b, why = small, ia[0], ib[0], P.spec(small, ia[0]) or P.spec_raw(small, P._raw_impl.get(small, ia[0])) or why
         except Exception:
             pass
         path = core.write_replay(P.id, {"kind": "input", "case": c, "profile": prof, "what_fails": why,
